@@ -193,7 +193,7 @@ func PadFrameRange(frange string, pad int) string {
 		// If we didn't match one of our expected patterns
 		// then just take the original part and add it unmodified
 		if !didMatch {
-			parts = append(parts, part)
+			parts[i] = part
 		}
 	}
 	return strings.Join(parts, ",")
